@@ -66,6 +66,31 @@ func c12PutOrder(ctx *core.Ctx, rule string) {
 	sameOut := origin(pi[0].Call.Args[2]) == origin(cf[0].Call.Args[2]) || sameLocal(pi[0].Call.Args[2], cf[0].Call.Args[2])
 	sameSize := origin(pi[0].Call.Args[3]) == origin(cf[0].Call.Args[3])
 	ctx.Check(okErr && sameOut && sameSize && g.Dominates(cf[0], pi[0]), rule, "cache.put#order", pi[0].Pos(), "putIndexEntry reached only when copyFile returned nil (%v), with the same output id (%v) and size (%v)", okErr, sameOut, sameSize)
+	// the hashing pass reads the source from its start: Seek(0, io.SeekStart) checked, before the copy into the hash
+	src := put.Params[2]
+	var seek, cp *ssa.Call
+	g.Instrs(func(i ssa.Instruction) {
+		c, ok := i.(*ssa.Call)
+		if !ok {
+			return
+		}
+		if c.Call.IsInvoke() && c.Call.Method.Name() == "Seek" && c.Call.Value == ssa.Value(src) {
+			seek = c
+		}
+		if ssax.CalleeName(&c.Call) == "io.Copy" && ssax.Strip(c.Call.Args[1]) == ssa.Value(src) {
+			cp = c
+		}
+	})
+	okRewind := false
+	if seek != nil && cp != nil {
+		off, ok1 := ssax.ConstInt(seek.Call.Args[0])
+		wh, ok2 := ssax.ConstInt(seek.Call.Args[1])
+		okRewind = ok1 && ok2 && off == 0 && wh == 0 && g.Dominates(seek, cp) && ssax.KnownNil(g.FactsAtInstr(cp), errOf(seek), true)
+	}
+	ctx.Check(okRewind, rule, "cache.put#hash-from-start", put.Pos(), "the first pass rewinds the source to offset 0 (Seek(0, io.SeekStart), error checked) before hashing it: a reader that is not at its start would otherwise be stored truncated under a wrong id")
+	// the size recorded is the number of bytes that pass copied
+	okSize := cp != nil && ssax.Extracted(cp, 0) != nil && origin(cf[0].Call.Args[3]) == ssax.Extracted(cp, 0)
+	ctx.Check(okSize, rule, "cache.put#size-is-bytes-hashed", put.Pos(), "the size handed on is the byte count of the hashing pass")
 }
 
 func runC12(ctx *core.Ctx) {
